@@ -1,0 +1,97 @@
+//go:build verif
+
+// Contracts for package event: the block-end Ethereum tracker transitions (property C15: "exactly once across the
+// three tracker stores"). Comment-only file, read by /verif/govc.
+
+package event
+
+// Every transition receives its context as interface{} and type-asserts it to *ethereum.TrackerCtx:
+//   evC(ctx)  : the *TrackerCtx inside ctx (meaningful when evIs(ctx))
+//   evOK(ctx) : the context is complete (tracker, tracker store with three distinct key spaces, job store, witnesses)
+//   evN(ctx)  : store key (name) of the tracker being processed
+// The vocabulary of the tracker stores (trkHas, trkType, trkState, trkN, trkPfx, trkOthersSame, ...) is that of
+// /repo/data/ethereum/verif_contracts.go.
+//@ ghost func evIs(ctx iface) bool = dyntype(ctx, "*ethereum.TrackerCtx")
+//@ ghost func evC(ctx iface) *ethereum.TrackerCtx = unbox(ctx, "*ethereum.TrackerCtx")
+//@ ghost func evOK(ctx iface) bool = evIs(ctx) ==> (evC(ctx) != nil && evC(ctx).Tracker != nil && evC(ctx).JobStore != nil && evC(ctx).Witnesses != nil && trkWfStore(evC(ctx).TrackerStore))
+//@ ghost func evN(ctx iface) string = trkNameStr(evC(ctx).Tracker.TrackerName)
+
+// ---------------------------------------------------------------- state-only transitions
+// They change the State field of the tracker object (and re-assign context.Tracker) and nothing else: no tracker
+// store record, no balance, no chain State. (Jobs go to the node-local job store, which is not modelled.)
+
+//@ func Broadcasting
+//@   requires evOK(ctx)                                                                                        // C15.transition-ctx
+//@   modifies evC(ctx).Tracker, evC(ctx).Tracker.State                                                         // C15.transition-frame
+//@   ensures result == nil ==> evIs(ctx) && old(evC(ctx).Tracker.State) == trkStNew() && evC(ctx).Tracker.State == trkStBusyBroadcasting()   // C15.lock-state-machine
+//@   ensures evC(ctx).Tracker == old(evC(ctx).Tracker)                                                         // C15.transition-frame
+
+//@ func Finalizing
+//@   requires evOK(ctx)                                                                                        // C15.transition-ctx
+//@   requires evIs(ctx) ==> trkWf(evC(ctx).Tracker)                                                            // C15.transition-ctx
+//@   modifies evC(ctx).Tracker, evC(ctx).Tracker.State                                                         // C15.transition-frame
+//@   ensures result == nil ==> evIs(ctx) && old(evC(ctx).Tracker.State) == trkStBusyBroadcasting() && (evC(ctx).Tracker.State == trkStBusyBroadcasting() || evC(ctx).Tracker.State == trkStBusyFinalizing())   // C15.lock-state-machine
+//@   ensures evC(ctx).Tracker == old(evC(ctx).Tracker)                                                         // C15.transition-frame
+
+// the Finalized state is only entered with more than two thirds yes votes
+//@ func Finalization
+//@   requires evOK(ctx)                                                                                        // C15.transition-ctx
+//@   requires evIs(ctx) ==> trkWf(evC(ctx).Tracker) && 2 * len(evC(ctx).Tracker.Witnesses) <= 9223372036854775807   // C15.transition-ctx
+//@   modifies evC(ctx).Tracker, evC(ctx).Tracker.State                                                         // C15.transition-frame
+//@   ensures result == nil ==> evIs(ctx) && old(evC(ctx).Tracker.State) == trkStBusyFinalizing()               // C15.lock-state-machine
+//@   ensures evC(ctx).Tracker.State != old(evC(ctx).Tracker.State) ==> evC(ctx).Tracker.State == trkStFinalized() && trkFinalizedT(evC(ctx).Tracker)   // C15.finalized-needs-threshold
+//@   ensures evC(ctx).Tracker == old(evC(ctx).Tracker)                                                         // C15.transition-frame
+
+//@ func Signing
+//@   requires evOK(ctx)                                                                                        // C15.transition-ctx
+//@   modifies evC(ctx).Tracker, evC(ctx).Tracker.State                                                         // C15.transition-frame
+//@   ensures result == nil ==> evIs(ctx) && old(evC(ctx).Tracker.State) == trkStNew() && evC(ctx).Tracker.State == trkStBusyBroadcasting()   // C15.redeem-state-machine
+//@   ensures evC(ctx).Tracker == old(evC(ctx).Tracker)                                                         // C15.transition-frame
+
+//@ func VerifyRedeem
+//@   requires evOK(ctx)                                                                                        // C15.transition-ctx
+//@   modifies evC(ctx).Tracker                                                                                 // C15.transition-frame
+//@   ensures result == nil ==> evIs(ctx) && evC(ctx).Tracker.State == trkStBusyBroadcasting()                  // C15.redeem-state-machine
+//@   ensures evC(ctx).Tracker == old(evC(ctx).Tracker)                                                         // C15.transition-frame
+
+//@ func RedeemConfirmed
+//@   requires evOK(ctx)                                                                                        // C15.transition-ctx
+//@   modifies evC(ctx).Tracker                                                                                 // C15.transition-frame
+//@   ensures evC(ctx).Tracker == old(evC(ctx).Tracker)                                                         // C15.transition-frame
+
+// ---------------------------------------------------------------- cleanup transitions (the move between stores)
+// After a successful cleanup the tracker is recorded (cleaned: type, state, name, no witnesses) in exactly the target
+// store (passed resp. failed) and is no longer in the ongoing store; no record of any other tracker changes; balances
+// and everything else are untouched (modifies clause).
+
+//@ func Cleanup
+//@   requires evOK(ctx)                                                                                        // C15.transition-ctx
+//@   modifies evC(ctx).TrackerStore.prefix, trkHas(evC(ctx).TrackerStore), trkType(evC(ctx).TrackerStore), trkState(evC(ctx).TrackerStore), trkOwner(evC(ctx).TrackerStore), trkTx(evC(ctx).TrackerStore), trkTo(evC(ctx).TrackerStore), trkN(evC(ctx).TrackerStore), trkYes(evC(ctx).TrackerStore), trkNo(evC(ctx).TrackerStore), trkWitAt(evC(ctx).TrackerStore), trkSlot(evC(ctx).TrackerStore), vHas(evC(ctx).TrackerStore.state), vVal(evC(ctx).TrackerStore.state)   // C15.transition-frame
+//@   ensures result == nil ==> evIs(ctx) && trkHas(evC(ctx).TrackerStore)[trkPfx(evC(ctx).TrackerStore, trkPxPassed())][evN(ctx)] && trkType(evC(ctx).TrackerStore)[trkPfx(evC(ctx).TrackerStore, trkPxPassed())][evN(ctx)] == evC(ctx).Tracker.Type && trkState(evC(ctx).TrackerStore)[trkPfx(evC(ctx).TrackerStore, trkPxPassed())][evN(ctx)] == evC(ctx).Tracker.State && trkN(evC(ctx).TrackerStore)[trkPfx(evC(ctx).TrackerStore, trkPxPassed())][evN(ctx)] == 0   // C15.cleanup-moves-to-passed
+//@   ensures result == nil ==> !trkHas(evC(ctx).TrackerStore)[trkPfx(evC(ctx).TrackerStore, trkPxOngoing())][evN(ctx)]   // C15.cleanup-leaves-ongoing
+//@   ensures result == nil ==> trkHas(evC(ctx).TrackerStore)[trkPfx(evC(ctx).TrackerStore, trkPxFailed())][evN(ctx)] == old(trkHas(evC(ctx).TrackerStore))[trkPfx(evC(ctx).TrackerStore, trkPxFailed())][evN(ctx)]   // C15.cleanup-exactly-one-store
+//@   ensures trkOthersSame(evC(ctx).TrackerStore, evN(ctx))                                                    // C15.cleanup-other-trackers-untouched
+
+//@ func CleanupFailed
+//@   requires evOK(ctx)                                                                                        // C15.transition-ctx
+//@   modifies evC(ctx).TrackerStore.prefix, trkHas(evC(ctx).TrackerStore), trkType(evC(ctx).TrackerStore), trkState(evC(ctx).TrackerStore), trkOwner(evC(ctx).TrackerStore), trkTx(evC(ctx).TrackerStore), trkTo(evC(ctx).TrackerStore), trkN(evC(ctx).TrackerStore), trkYes(evC(ctx).TrackerStore), trkNo(evC(ctx).TrackerStore), trkWitAt(evC(ctx).TrackerStore), trkSlot(evC(ctx).TrackerStore), vHas(evC(ctx).TrackerStore.state), vVal(evC(ctx).TrackerStore.state)   // C15.transition-frame
+//@   ensures result == nil ==> evIs(ctx) && trkHas(evC(ctx).TrackerStore)[trkPfx(evC(ctx).TrackerStore, trkPxFailed())][evN(ctx)] && trkType(evC(ctx).TrackerStore)[trkPfx(evC(ctx).TrackerStore, trkPxFailed())][evN(ctx)] == evC(ctx).Tracker.Type && trkState(evC(ctx).TrackerStore)[trkPfx(evC(ctx).TrackerStore, trkPxFailed())][evN(ctx)] == evC(ctx).Tracker.State && trkN(evC(ctx).TrackerStore)[trkPfx(evC(ctx).TrackerStore, trkPxFailed())][evN(ctx)] == 0   // C15.cleanup-moves-to-failed
+//@   ensures result == nil ==> !trkHas(evC(ctx).TrackerStore)[trkPfx(evC(ctx).TrackerStore, trkPxOngoing())][evN(ctx)]   // C15.cleanup-leaves-ongoing
+//@   ensures result == nil ==> trkHas(evC(ctx).TrackerStore)[trkPfx(evC(ctx).TrackerStore, trkPxPassed())][evN(ctx)] == old(trkHas(evC(ctx).TrackerStore))[trkPfx(evC(ctx).TrackerStore, trkPxPassed())][evN(ctx)]   // C15.cleanup-exactly-one-store
+//@   ensures trkOthersSame(evC(ctx).TrackerStore, evN(ctx))                                                    // C15.cleanup-other-trackers-untouched
+
+//@ func redeemCleanup
+//@   requires evOK(ctx)                                                                                        // C15.transition-ctx
+//@   modifies evC(ctx).TrackerStore.prefix, trkHas(evC(ctx).TrackerStore), trkType(evC(ctx).TrackerStore), trkState(evC(ctx).TrackerStore), trkOwner(evC(ctx).TrackerStore), trkTx(evC(ctx).TrackerStore), trkTo(evC(ctx).TrackerStore), trkN(evC(ctx).TrackerStore), trkYes(evC(ctx).TrackerStore), trkNo(evC(ctx).TrackerStore), trkWitAt(evC(ctx).TrackerStore), trkSlot(evC(ctx).TrackerStore), vHas(evC(ctx).TrackerStore.state), vVal(evC(ctx).TrackerStore.state)   // C15.transition-frame
+//@   ensures result == nil ==> evIs(ctx) && trkHas(evC(ctx).TrackerStore)[trkPfx(evC(ctx).TrackerStore, trkPxPassed())][evN(ctx)] && trkType(evC(ctx).TrackerStore)[trkPfx(evC(ctx).TrackerStore, trkPxPassed())][evN(ctx)] == evC(ctx).Tracker.Type && trkState(evC(ctx).TrackerStore)[trkPfx(evC(ctx).TrackerStore, trkPxPassed())][evN(ctx)] == evC(ctx).Tracker.State && trkN(evC(ctx).TrackerStore)[trkPfx(evC(ctx).TrackerStore, trkPxPassed())][evN(ctx)] == 0   // C15.cleanup-moves-to-passed
+//@   ensures result == nil ==> !trkHas(evC(ctx).TrackerStore)[trkPfx(evC(ctx).TrackerStore, trkPxOngoing())][evN(ctx)]   // C15.cleanup-leaves-ongoing
+//@   ensures result == nil ==> trkHas(evC(ctx).TrackerStore)[trkPfx(evC(ctx).TrackerStore, trkPxFailed())][evN(ctx)] == old(trkHas(evC(ctx).TrackerStore))[trkPfx(evC(ctx).TrackerStore, trkPxFailed())][evN(ctx)]   // C15.cleanup-exactly-one-store
+//@   ensures trkOthersSame(evC(ctx).TrackerStore, evN(ctx))                                                    // C15.cleanup-other-trackers-untouched
+
+//@ func redeemCleanupFailed
+//@   requires evOK(ctx)                                                                                        // C15.transition-ctx
+//@   modifies evC(ctx).TrackerStore.prefix, trkHas(evC(ctx).TrackerStore), trkType(evC(ctx).TrackerStore), trkState(evC(ctx).TrackerStore), trkOwner(evC(ctx).TrackerStore), trkTx(evC(ctx).TrackerStore), trkTo(evC(ctx).TrackerStore), trkN(evC(ctx).TrackerStore), trkYes(evC(ctx).TrackerStore), trkNo(evC(ctx).TrackerStore), trkWitAt(evC(ctx).TrackerStore), trkSlot(evC(ctx).TrackerStore), vHas(evC(ctx).TrackerStore.state), vVal(evC(ctx).TrackerStore.state)   // C15.transition-frame
+//@   ensures result == nil ==> evIs(ctx) && trkHas(evC(ctx).TrackerStore)[trkPfx(evC(ctx).TrackerStore, trkPxFailed())][evN(ctx)] && trkType(evC(ctx).TrackerStore)[trkPfx(evC(ctx).TrackerStore, trkPxFailed())][evN(ctx)] == evC(ctx).Tracker.Type && trkState(evC(ctx).TrackerStore)[trkPfx(evC(ctx).TrackerStore, trkPxFailed())][evN(ctx)] == evC(ctx).Tracker.State && trkN(evC(ctx).TrackerStore)[trkPfx(evC(ctx).TrackerStore, trkPxFailed())][evN(ctx)] == 0   // C15.cleanup-moves-to-failed
+//@   ensures result == nil ==> !trkHas(evC(ctx).TrackerStore)[trkPfx(evC(ctx).TrackerStore, trkPxOngoing())][evN(ctx)]   // C15.cleanup-leaves-ongoing
+//@   ensures result == nil ==> trkHas(evC(ctx).TrackerStore)[trkPfx(evC(ctx).TrackerStore, trkPxPassed())][evN(ctx)] == old(trkHas(evC(ctx).TrackerStore))[trkPfx(evC(ctx).TrackerStore, trkPxPassed())][evN(ctx)]   // C15.cleanup-exactly-one-store
+//@   ensures trkOthersSame(evC(ctx).TrackerStore, evN(ctx))                                                    // C15.cleanup-other-trackers-untouched
